@@ -58,6 +58,19 @@ def protocol_battery():
                       default_answer=[0], note="values wider than their signal: the driver gets what the row reports"))
     b.append(Scenario("CLK A Y\nC 17 X\nC 33 1\n", [("in", "CLK", 1, 0), ("in", "A", 4, 0), ("out", "Y", 8)], default_answer=[1],
                       note="wide values on clocked rows"))
+    # fifth round: a consumer that stops in the middle of an expansion (after k rows, or at a failing mid-clock write) and
+    # drops the iterator: nothing further reaches the device (the replay runner logs calls made while dropping)
+    for k in (1, 2, 3, 4, 5):
+        b.append(Scenario("CLK A Y\nC 0 1\nC X 1\n", S, default_answer=[1, 0], max_rows=k,
+                          note="iteration abandoned after %d rows of clocked / X rows: dropping the iterator sends nothing" % k))
+    for k in (1, 2, 3, 4):
+        b.append(Scenario("CLK A Y\nC 0 1\nC 1 1\n", S, default_answer=[1, 0], fail_at=[k],
+                          note="consumer stops at the failing call %d inside a clock triple and drops the iterator" % k))
+    # a bidirectional signal is input-capable however the header refers to it
+    Sbd = [("in", "A", 1, 0), ("bidir", "D", 8, 5), ("out", "Y", 8), ("bidir", "E", 4, "Z")]
+    for hdr_, row_ in (("A D_out Y", "1 7 X"), ("D_out", "7"), ("A E_out D", "1 X 3"), ("A D D_out E E_out", "0 1 X Z 2"), ("Y", "X")):
+        b.append(Scenario("%s\n%s\n%s\n" % (hdr_, row_, row_), Sbd, default_answer=[0, 0, 0],
+                          note="bidirectional signals named only by their _out column (or not at all) are still driven: header %s" % hdr_))
     # fourth round: blocks that produce no row in the middle of a program - the end is reported once, after the last row
     for mid, what in (("loop(i,0)\n1 1 X\nend loop\n", "zero-trip loop"), ("while(0)\n1 1 X\nend while\n", "zero-trip while"),
                       ("repeat(0) 1 1 X\n", "zero-trip repeat"), ("loop(i,2)\nloop(j,0)\n1 1 X\nend loop\nend loop\n", "nested zero-trip loop"),
@@ -619,6 +632,12 @@ def control_battery():
                 "repeat(1) still opens the scope of its counter", default_answer=[0]))
     b.append(sc("A B Y\nlet acc = 10;\nloop(i,4)\nlet acc = acc + i + 1;\n(i) (acc) X\nend loop\n10 99 X\n",
                 [(0, 11), (1, 13), (2, 16), (3, 20), (10, 99)], "a let in a loop body accumulates across iterations", default_answer=[0]))
+    # fifth round: rows after a row whose output extraction failed still see the program's variables and loop frames
+    Sv = [("in", "A", 8, 0), ("in", "B", 8, 0), ("out", "Y", 8)]
+    b.append(Scenario("A B Y V\ndeclare V = 8 / Y;\nlet k = 7;\nloop(i,3)\n(i+k) (i) X X\nend loop\n(k) 9 X X\n", Sv, default_answer=[1],
+                      answers={2: [0]}, stop_on_err=False, max_rows=50,
+                      expect={"row_inputs": [["7", "0"], ["9", "2"], ["7", "9"]], "items": ["row", "err", "row", "row"]},
+                      note="a virtual signal fails on one row inside a loop: the following rows run in the program's environment"))
     # statements executed before the first row read the device (the answer to the constructor's call)
     b.append(sc("A B Y\nloop(i, Y)\n(i) 4 X\nend loop\n9 9 X\n", [(0, 4), (1, 4), (9, 9)],
                 "a loop bound evaluated before the first row reads the construction answer", answers={0: [2]}, default_answer=[7]))
